@@ -4862,8 +4862,14 @@ fn process_relocation<'data, 'scope, A: Arch<Platform = Elf>, R: Relocation>(
             && flags.is_address()
         {
             if section_is_writable {
-                // Odd offsets mean bitmaps in RELR, so we need to fall back to RELA for them.
-                if resources.symbol_db.args.is_relr_enabled() && rel.offset().is_multiple_of(2) {
+                // Odd addresses mean bitmaps in RELR, so we need to fall back to RELA for them. We
+                // don't yet know the address, so we can only use RELR if the section's alignment
+                // guarantees that an even offset ends up at an even address. This needs to match
+                // the decision made when we write the relocation.
+                if resources.symbol_db.args.is_relr_enabled()
+                    && rel.offset().is_multiple_of(2)
+                    && section.sh_addralign(LittleEndian) >= 2
+                {
                     common.allocate(part_id::RELR_DYN, elf::RELR_ENTRY_SIZE);
                 } else {
                     common.allocate(part_id::RELA_DYN_RELATIVE, elf::RELA_ENTRY_SIZE);
